@@ -228,9 +228,9 @@ mod verif_kani_array {
             assert!(hash_arr(a).same(&hash_arr(b)));
         }
     }
-    //@ id=C15.e1.array.total_order.same_shape_2x2 props=C15,C09 level=bounded tier=quick budget=900 bound="three byte arrays of shape 2x2" desc="Array eq/cmp/hash laws on equal shapes"
+    //@ id=C15.e1.array.total_order.same_shape_2x2 props=C15,C09 level=bounded tier=thorough budget=3000 bound="three byte arrays of shape 2x2" desc="Array eq/cmp/hash laws on equal shapes"
     #[kani::proof]
-    #[kani::unwind(8)]
+    #[kani::unwind(20)]
     fn vk_c15_array_same_shape() {
         let a = arr_u8::<4, 2>([2, 2]);
         let b = arr_u8::<4, 2>([2, 2]);
@@ -239,7 +239,7 @@ mod verif_kani_array {
     }
     //@ id=C15.e1.array.total_order.mixed_rank props=C15,C09 level=bounded tier=quick budget=900 bound="byte arrays of shapes [2], [1,2], [2,1]" desc="Array eq/cmp/hash laws across ranks"
     #[kani::proof]
-    #[kani::unwind(8)]
+    #[kani::unwind(12)]
     fn vk_c15_array_mixed_rank() {
         let a = arr_u8::<2, 1>([2]);
         let b = arr_u8::<2, 2>([1, 2]);
@@ -250,7 +250,7 @@ mod verif_kani_array {
     }
     //@ id=C15.e1.array.total_order.same_rank_different_shape props=C15 level=bounded tier=quick budget=900 bound="byte arrays of shapes [1,4], [2,1], [2,2]" desc="Array ordering is transitive across same-rank arrays of different shapes"
     #[kani::proof]
-    #[kani::unwind(8)]
+    #[kani::unwind(12)]
     fn vk_c15_array_same_rank_diff_shape() {
         let a = arr_u8::<4, 2>([1, 4]);
         let b = arr_u8::<2, 2>([2, 1]);
@@ -259,9 +259,9 @@ mod verif_kani_array {
         total_order3(&b, &c, &a);
         total_order3(&c, &a, &b);
     }
-    //@ id=C06.e1.array.byte_vs_float_same_numbers props=C06,C15,C09 level=bounded tier=quick budget=900 bound="shape 2x2" desc="a byte array and the float array holding the same numbers are equal, ordered alike against a third array and hash alike"
+    //@ id=C06.e1.array.byte_vs_float_same_numbers props=C06,C15,C09 level=bounded tier=thorough budget=3000 bound="shape 2x2" desc="a byte array and the float array holding the same numbers are equal, ordered alike against a third array and hash alike"
     #[kani::proof]
-    #[kani::unwind(8)]
+    #[kani::unwind(20)]
     fn vk_c06_array_byte_vs_float() {
         let d: [u8; 4] = kani::any();
         let e: [u8; 4] = kani::any();
